@@ -124,6 +124,7 @@ type verifyOpts struct {
 	repo, prop, fnre, out, dump string
 	timeout, jobs              int
 	verbose, content, quiet    bool
+	explain                    bool
 }
 
 type verifyResult struct {
@@ -152,6 +153,7 @@ func cmdVerify(args []string) int {
 	fs.BoolVar(&o.verbose, "v", false, "print every obligation")
 	fs.IntVar(&o.jobs, "j", 16, "parallel solver jobs")
 	fs.BoolVar(&o.content, "content", false, "byte-content axioms for append (T2)")
+	fs.BoolVar(&o.explain, "explain", false, "print model values of SSA values for failed obligations")
 	fs.Parse(args)
 	res := runVerify(&o)
 	if res.LoadErr != "" {
@@ -168,7 +170,10 @@ func cmdVerify(args []string) int {
 	return 0
 }
 
+var explainMode bool
+
 func runVerify(o *verifyOpts) *verifyResult {
+	explainMode = o.explain
 	repo, prop, fnre, timeout, out, dump, verbose, jobs, content := &o.repo, &o.prop, &o.fnre, &o.timeout, &o.out, &o.dump, &o.verbose, &o.jobs, &o.content
 	t0 := time.Now()
 	e, err := loadEngine(*repo)
@@ -273,7 +278,11 @@ func runVerify(o *verifyOpts) *verifyResult {
 				j.r.Status = "discharged"
 			case res.Status == "sat":
 				j.r.Status = "failed"
-				j.r.Model = j.o.model(*timeout)
+				if o.explain {
+					j.r.Model = j.o.explain(*timeout)
+				} else {
+					j.r.Model = j.o.model(*timeout)
+				}
 			default:
 				j.r.Status = "undecided"
 				j.r.Output = res.Status + ": " + res.Output
@@ -318,6 +327,9 @@ func runVerify(o *verifyOpts) *verifyResult {
 			case "failed":
 				failed++
 				fmt.Printf("FAILED   %s (%s) %s -- %s\n", o.Name, o.Pos, o.Backend, o.Descr)
+				if *verbose || explainMode {
+					fmt.Println(truncate(o.Model, 30000))
+				}
 			default:
 				undec++
 				fmt.Printf("UNDECIDED %s (%s) -- %s [%s]\n", o.Name, o.Pos, o.Descr, firstLine(o.Output))
